@@ -42,7 +42,12 @@ Definition shape_from_args (s : spelled) (kwname : string) : option (list Z) :=
 
 (* out_shape = batch size of the ORIGINAL (the `out` argument of the _reverse_* functions);
    self_ndim = number of batch dims of the modified object *)
-Definition reverse (op : string) (s : spelled) (out_shape : list Z) (self_ndim : Z) : icall :=
+(* [fx201]: the repair of D201 in _reverse_unflatten (an unflattened_size of length 1 split nothing: the object itself is
+   written back instead of calling flatten(d, d), which base.py::flatten refuses).  [reverse] is the repository's code,
+   [reverse_with false] the unrepaired one (kept as witness). *)
+Definition fixed_D201 : bool := true.
+
+Definition reverse_with (fx201 : bool) (op : string) (s : spelled) (out_shape : list Z) (self_ndim : Z) : icall :=
   let nd := zlen out_shape in
   if String.eqb op "transpose" then
     match pos s, kwget (kw s) "dim0", kwget (kw s) "dim1" with
@@ -85,7 +90,9 @@ Definition reverse (op : string) (s : spelled) (out_shape : list Z) (self_ndim :
       end in
     match ds with
     | None => CRaise
-    | Some (d, sz) => let d0 := if d <? 0 then nd + d else d in CFlatten d0 (d0 + zlen sz - 1)
+    | Some (d, sz) =>
+        let d0 := if d <? 0 then nd + d else d in
+        if fx201 && (zlen sz =? 1) then CIdentity else CFlatten d0 (d0 + zlen sz - 1)
     end
   else if String.eqb op "unsqueeze" then
     match pos s, kwget (kw s) "dim" with
@@ -112,6 +119,8 @@ Definition reverse (op : string) (s : spelled) (out_shape : list Z) (self_ndim :
     | _ => CRaise
     end
   else CRaise.
+
+Definition reverse := reverse_with fixed_D201.
 
 (* ---------------- shape semantics of the operations (torch's, on the batch shape) ---------------- *)
 Definition norm (d n : Z) : Z := if d <? 0 then n + d else d.
